@@ -43,6 +43,8 @@ func init() {
 
 func bitsWords(v float64) []int { return encF(v) }
 
+var floatReader rjson.ValueReader // reused across the events of a sequential run (rows 6, 7)
+
 func runFloat(sw *shardWriter, j *jb, input []byte, st *genStats) (tier int, wide bool) {
 	input = relayout(input)
 	orig := append([]byte{}, input...)
@@ -82,10 +84,40 @@ func runFloat(sw *shardWriter, j *jb, input []byte, st *genStats) (tier int, wid
 		f, _ := v.(float64)
 		row(3, err, p, f)
 	})
-	j.raw(`],"std":`)
 	// strconv on the literal alone (the part ReadFloat64 consumed, when it succeeded)
 	lit := bytes.TrimLeft(input, " \t\r\n")
 	end := numPrefix(lit)
+	// the same literal as a leaf of a document, through the generic decoders (package level and a reused reader):
+	// every API that converts numbers owes the same value.  Rows 4..7 (the offset is that of the whole document).
+	if end > 0 && end <= 4096 {
+		l := lit[:end]
+		rd := &floatReader
+		if concMode {
+			rd = &rjson.ValueReader{}
+		}
+		leaf := func(k int, doc []byte, read func(d []byte) (interface{}, int, error), pick func(v interface{}) interface{}) {
+			guardPanic(&panics, func() {
+				v, p, err := read(doc)
+				f := 0.0
+				if err == nil {
+					x, ok := pick(v).(float64)
+					if !ok {
+						err = errCompose
+					}
+					f = x
+				}
+				row(k, err, p, f)
+			})
+		}
+		cat := func(pre string, mid []byte, post string) []byte { return append(append([]byte(pre), mid...), post...) }
+		leaf(4, cat("[", l, "]"), rjson.ReadValue, func(v interface{}) interface{} { return v.([]interface{})[0] })
+		leaf(5, cat(`{"a":`, l, "}"), rjson.ReadValue, func(v interface{}) interface{} { return v.(map[string]interface{})["a"] })
+		leaf(6, cat("[0,", l, " ,1]"), func(d []byte) (interface{}, int, error) { a, p, err := rd.ReadArray(d); return a, p, err },
+			func(v interface{}) interface{} { return v.([]interface{})[1] })
+		leaf(7, cat(`{"k":[`, l, `],"a":`+string(l)+"}"), func(d []byte) (interface{}, int, error) { m, p, err := rd.ReadObject(d); return m, p, err },
+			func(v interface{}) interface{} { return v.(map[string]interface{})["a"] })
+	}
+	j.raw(`],"std":`)
 	sv, serr := strconv.ParseFloat(string(lit[:end]), 64)
 	stdok := 1
 	if serr != nil {
